@@ -302,7 +302,8 @@ pub fn alg_strategy() -> BoxedStrategy<Alg> {
     prop_oneof![Just(Alg::ES256), Just(Alg::EdDSA), Just(Alg::HS256)].boxed()
 }
 pub fn holder_strategy() -> BoxedStrategy<HolderKey> {
-    prop_oneof![2 => Just(HolderKey::None), 1 => Just(HolderKey::Ec), 1 => Just(HolderKey::Ed)].boxed()
+    // Ec2 / Ed2 are other key pairs whose JWKs carry the same `kid` as Ed's
+    prop_oneof![8 => Just(HolderKey::None), 3 => Just(HolderKey::Ec), 3 => Just(HolderKey::Ed), 1 => Just(HolderKey::Ec2), 1 => Just(HolderKey::Ed2)].boxed()
 }
 
 const AUD_NONCE: &[&str] = &["https://verifier.example.org", "https://verifier.example.org/", "https://Verifier.example.org/cb/", "1234567890", "", "a", "audience with spaces", "ノンス", "😀", "\"", "a~b", "x.y.z", "\\", "\u{0}"];
